@@ -8,7 +8,13 @@ ROOT = os.path.dirname(os.path.dirname(os.path.abspath(__file__)))
 SD = os.path.join(ROOT, "seeded")
 
 def run(name):
-    p = subprocess.run([os.path.join(ROOT, "tools", "seedtest.sh"), os.path.join(SD, name)], stdout=subprocess.PIPE,
+    extra = []
+    mp = os.path.join(SD, name, "meta.json")
+    if os.path.exists(mp):
+        m = json.load(open(mp))
+        if m.get("also_checks"):
+            extra = [m["property"]] + list(m["also_checks"])
+    p = subprocess.run([os.path.join(ROOT, "tools", "seedtest.sh"), os.path.join(SD, name)] + extra, stdout=subprocess.PIPE,
                        stderr=subprocess.STDOUT, env=dict(os.environ, SEED_KEEP_LOG="1"))
     out = [l for l in p.stdout.decode("utf-8", "replace").split("\n") if l.startswith(name + " ")]
     res = []
